@@ -869,6 +869,17 @@ func (c *Ctx) c12Wiring(b BK) {
 				}
 			case *ast.Ident:
 				got[sel.Sel.Name] = rhs.Name
+				// a parameter of a wiring helper: what the constructor passes for it
+				if arg := c.argForParam(bd, c.Pkg.TypesInfo.Uses[rhs], ctorBodies); arg != nil {
+					if ms, ok := ast.Unparen(arg).(*ast.SelectorExpr); ok {
+						if s := c.Pkg.TypesInfo.Selections[ms]; s != nil && s.Kind() == types.MethodVal && (namedTypeName(s.Recv()) == b.Name || namedTypeName(s.Recv()) == b.Wrapper) {
+							if mf, ok := s.Obj().(*types.Func); ok {
+								full := pw.FuncName(mf)
+								got[sel.Sel.Name] = full[strings.LastIndex(full, ".")+1:]
+							}
+						}
+					}
+				}
 			case *ast.FuncLit:
 				// a literal that forwards to the backend's method (e.g. to pass it something more)
 				ast.Inspect(rhs.Body, func(y ast.Node) bool {
@@ -1194,4 +1205,54 @@ func (c *Ctx) c12Counter() {
 			r.OK("R12.3", name, fmt.Sprintf("counter maintenance per strategy on %v serve paths", seen))
 		}
 	}
+}
+
+// argForParam: obj is a parameter of the declared function fd; returns the argument a call of fd found in bodies passes for it (the
+// call whose receiver / arguments belong to the backend analysed is the one in bodies[0], the constructor).
+func (c *Ctx) argForParam(fd *ast.FuncDecl, obj types.Object, bodies []*ast.FuncDecl) ast.Expr {
+	if obj == nil || fd == nil || fd.Type.Params == nil {
+		return nil
+	}
+	info := c.Pkg.TypesInfo
+	idx, n := -1, 0
+	for _, f := range fd.Type.Params.List {
+		for _, nm := range f.Names {
+			if info.Defs[nm] == obj {
+				idx = n
+			}
+			n++
+		}
+	}
+	if idx < 0 {
+		return nil
+	}
+	fobj := info.Defs[fd.Name]
+	var found ast.Expr
+	for _, bd := range bodies {
+		ast.Inspect(bd.Body, func(x ast.Node) bool {
+			call, ok := x.(*ast.CallExpr)
+			if !ok || found != nil {
+				return true
+			}
+			fun := ast.Unparen(call.Fun)
+			if ix, ok := fun.(*ast.IndexExpr); ok {
+				fun = ix.X
+			}
+			var callee types.Object
+			switch f := fun.(type) {
+			case *ast.Ident:
+				callee = info.Uses[f]
+			case *ast.SelectorExpr:
+				callee = info.Uses[f.Sel]
+			}
+			if fo, _ := callee.(*types.Func); fo != nil && fobj != nil && fo.Origin() == fobj.(*types.Func).Origin() && idx < len(call.Args) {
+				found = call.Args[idx]
+			}
+			return true
+		})
+		if found != nil {
+			break
+		}
+	}
+	return found
 }
